@@ -1,0 +1,87 @@
+// Conformance-harness hooks. Compiled only with `--cfg maidsafe_safe_network_verif`.
+//
+// Public wrappers (no logic) around the crate-private `Node`, so that an external harness can call
+// the real validation / replication / query handlers on a `Network` handle whose command channels
+// it serves itself.
+
+use crate::node::Node;
+use ant_evm::{EvmNetwork, PaymentQuote, QuotingMetrics, RewardsAddress};
+use ant_networking::Network;
+use ant_protocol::{
+    messages::{Query, Response},
+    NetworkAddress,
+};
+use libp2p::{
+    kad::{Record, RecordKey},
+    Multiaddr, PeerId,
+};
+
+#[derive(Clone)]
+pub struct VerifNode(Node);
+
+impl VerifNode {
+    pub fn new(network: Network, evm_network: EvmNetwork, reward_address: RewardsAddress) -> Self {
+        Self(Node::verif_new(network, evm_network, reward_address))
+    }
+
+    /// Client put / unpaid update path. The error is rendered with `Debug`.
+    pub async fn validate_and_store_record(&self, record: Record) -> Result<(), String> {
+        self.0
+            .validate_and_store_record(record)
+            .await
+            .map_err(|e| format!("{e:?}"))
+    }
+
+    /// Replication path.
+    pub async fn store_replicated_in_record(&self, record: Record) -> Result<(), String> {
+        self.0
+            .store_replicated_in_record(record)
+            .await
+            .map_err(|e| format!("{e:?}"))
+    }
+
+    pub fn fetch_replication_keys_without_wait(
+        &self,
+        keys_to_fetch: Vec<(PeerId, RecordKey)>,
+    ) -> Result<(), String> {
+        self.0
+            .fetch_replication_keys_without_wait(keys_to_fetch)
+            .map_err(|e| format!("{e:?}"))
+    }
+
+    /// Fresh replication of a just stored record to the close peers.
+    pub fn replicate_valid_fresh_record(
+        &self,
+        key: RecordKey,
+        record_type: ant_protocol::storage::RecordType,
+    ) {
+        self.0.replicate_valid_fresh_record(key, record_type)
+    }
+
+    pub async fn handle_query(
+        network: &Network,
+        query: Query,
+        payment_address: RewardsAddress,
+    ) -> Response {
+        Node::verif_handle_query(network, query, payment_address).await
+    }
+
+    pub fn calculate_get_closest_peers(
+        peer_addrs: Vec<(PeerId, Vec<Multiaddr>)>,
+        target: NetworkAddress,
+        num_of_peers: Option<usize>,
+        range: Option<[u8; 32]>,
+    ) -> Vec<(NetworkAddress, Vec<Multiaddr>)> {
+        Node::verif_calculate_get_closest_peers(peer_addrs, target, num_of_peers, range)
+    }
+
+    pub fn create_quote_for_storecost(
+        network: &Network,
+        address: &NetworkAddress,
+        quoting_metrics: &QuotingMetrics,
+        payment_address: &RewardsAddress,
+    ) -> Result<PaymentQuote, String> {
+        Node::create_quote_for_storecost(network, address, quoting_metrics, payment_address)
+            .map_err(|e| format!("{e:?}"))
+    }
+}
